@@ -191,6 +191,7 @@ def _value_classes(ctx, m):
                     n_eq += 1
                 else:
                     ctx.error('C19.D1', 'Qty.__hash__ has unrecognised form %r' % h)
+            _qty_eq_ne(ctx, m, meths, where)
             # the hash tells raw units apart; so must the unit test that equality goes through
             co = meths.get('_cmp_op')
             if co is not None and len(co.args.args) == 3:
@@ -474,6 +475,72 @@ KIND_OF_ATTR = {
     'latitude': ('Coordinate',), 'longitude': ('Coordinate',), 'microsecond': ('datetime.time', 'datetime.datetime'),
 }
 NUMERIC = ('float', 'int', 'numbers.Number', 'numbers.Real', 'bool')
+
+
+def _qty_eq_ne(ctx, m, meths, where):
+    """Qty.__eq__ and Qty.__ne__ go through _cmp_op with a two-argument operator each; the two operators are complements
+    of each other on every pair of values (decision table over 1.0, 2.0, -0.0/0.0, inf and NaN), and the == operator holds
+    only for values the hash cannot tell apart (plain ==; a NaN-reflexive == makes equal quantities hash differently)."""
+    from .. import minieval
+    eq, ne = meths.get('__eq__'), meths.get('__ne__')
+    if eq is None:
+        return
+    if ne is None:
+        ctx.ob('C19.D1', 'Qty defines no __ne__: != is the negation of __eq__', True, where)
+        return
+
+    def operator_of(fn):
+        b = body_wo_doc(fn)
+        if len(b) != 1 or not isinstance(b[0], ast.Return) or not isinstance(b[0].value, ast.Call):
+            return None
+        c = b[0].value
+        if not norm(c.func).endswith('._cmp_op') or len(c.args) != 2:
+            return None
+        op = c.args[1]
+        if isinstance(op, ast.Lambda) and len(op.args.args) == 2:
+            return [a.arg for a in op.args.args], op.body
+        if isinstance(op, ast.Name):
+            try:
+                f = m.func(D, op.id)
+            except AnalysisError:
+                return None
+            fb = body_wo_doc(f)
+            if len(fb) == 1 and isinstance(fb[0], ast.Return) and fb[0].value is not None and len(f.args.args) == 2:
+                return [a.arg for a in f.args.args], fb[0].value
+        if isinstance(op, ast.Attribute) and norm(op) in ('operator.eq', 'operator.ne'):
+            x, y = ast.Name(id='x', ctx=ast.Load()), ast.Name(id='y', ctx=ast.Load())
+            return ['x', 'y'], ast.Compare(left=x, ops=[ast.Eq() if norm(op) == 'operator.eq' else ast.NotEq()], comparators=[y])
+        return None
+
+    oe, on = operator_of(eq), operator_of(ne)
+    if oe is None or on is None:
+        ctx.error('C19.D1', 'Qty.__eq__/__ne__: operator handed to _cmp_op not recognised; complementarity not decided')
+        return
+    nan = float('nan')
+    dom = [1.0, 2.0, 0.0, -0.0, float('inf'), nan]
+    try:
+        for a in dom:
+            for b in dom:
+                ve = bool(minieval.ev(oe[1], dict(zip(oe[0], (a, b)))))
+                vn = bool(minieval.ev(on[1], dict(zip(on[0], (a, b)))))
+                if ve == vn:
+                    ctx.violation('C19.D1', '%s::Qty.__eq__ / __ne__' % FD, '%s  vs  %s' % (norm(oe[1])[:60], norm(on[1])[:60]),
+                                  'Quantity(%r, "m") == Quantity(%r, "m") is %s and Quantity(%r, "m") != Quantity(%r, "m") is %s as '
+                                  'well: the two operators are not complementary' % (a, b, ve, a, b, vn),
+                                  'Qty.__eq__ applies `%s`, Qty.__ne__ applies `%s`: for the operands (%r, %r) both give %s'
+                                  % (norm(oe[1])[:60], norm(on[1])[:60], a, b, ve), file=FD, line=eq.lineno, engine='E6')
+                    return
+                if ve and not (a == b):
+                    ctx.violation('C19.D1', '%s::Qty.__eq__' % FD, norm(oe[1])[:80],
+                                  'Quantity(%r, "m") == Quantity(%r, "m") is True although the values are not == : the hash of '
+                                  '(value, unit) differs for them, so equal quantities have different hashes' % (a, b),
+                                  'Qty.__eq__ holds for values that hash differently', file=FD, line=eq.lineno, engine='E6')
+                    return
+    except minieval.Undecided as e:
+        ctx.error('C19.D1', 'Qty.__eq__/__ne__ operators: %s; complementarity not decided' % e)
+        return
+    ctx.ob('C19.D1', 'Qty.__eq__ and Qty.__ne__ hand complementary operators to _cmp_op (table over %d x %d values incl. NaN, '
+                     '-0.0, inf)' % (len(dom), len(dom)), True, where)
 
 
 def _isinstance_facts(test, positive=True):
